@@ -421,6 +421,10 @@ class Evaluator:
             return self.lib.call_ext(self, f.dotted, args, kwargs, node)
         if isinstance(f, BoundExt):
             return self.lib.call_method(self, f.recv, f.name, args, kwargs, node)
+        if isinstance(f, Obj):
+            m = f.cls.find_method("__call__")
+            if m is not None:
+                return self.call_function(FuncV(m, None, f, m.cls), args, kwargs, node)
         if isinstance(f, V):
             # opaque callable (user-supplied metric / sampler)
             r = App("call", (f, Tup([a if isinstance(a, V) else Sym(key_of(a)) for a in args])),
@@ -608,6 +612,10 @@ class Evaluator:
             raise AnalysisError("super().%s not found" % name)
         if isinstance(v, ClassV):
             ci = v.ci
+            if name in ("__name__", "__qualname__"):
+                return Const(ci.name)
+            if name == "__module__":
+                return Const(ci.module.qualname)
             if ci.is_enum:
                 for m in self.enum_members(ci):
                     if m.name == name:
@@ -638,6 +646,8 @@ class Evaluator:
                     return Top("property object")
                 return self.call_function(FuncV(m, None, obj, m.cls), [], {}, node)
             fv = self.method_value(m)
+            if m.kind == "classmethod" and isinstance(fv, FuncV):
+                return fv.bind(ClassV(obj.cls if obj is not None else ci))
             if m.kind == "staticmethod" or obj is None:
                 return fv
             return fv.bind(obj) if isinstance(fv, FuncV) else fv
@@ -656,11 +666,46 @@ class Evaluator:
             if isinstance(val, FuncV) and obj is not None and val.fi.kind != "staticmethod":
                 return val.bind(obj)
             return val
+        dyn = self.dynamic_class_attrs(ci)
+        if name in dyn:
+            val = dyn[name]
+            if isinstance(val, PropV):
+                return self.call(val.fget, [obj], {}, node) if obj is not None else Top("property object")
+            if isinstance(val, FuncV) and obj is not None:
+                return val.bind(obj)
+            return val
         for b in ci.mro():
             for base in b.bases:
                 if isinstance(base, str):
                     return self.lib.foreign_base_attr(self, base, name, obj)
         raise AnalysisError("attribute %s not found on class %s" % (name, ci.qualname))
+
+    def dynamic_class_attrs(self, ci):
+        """Attributes that class decorators attach with setattr(cls, name, value) (e.g. alias methods generated from a table):
+        each non-dataclass decorator of the classes in the MRO is evaluated once with the class as argument."""
+        out = {}
+        for c in ci.mro():
+            if not isinstance(c, ClassInfo):
+                continue
+            k = ("dynattrs", c.qualname)
+            if k not in self._glob_cache:
+                self._glob_cache[k] = {}
+                decs = [d for d in c.node.decorator_list if ast.unparse(d).split("(")[0].split(".")[-1] not in ("dataclass", "total_ordering", "unique")]
+                if decs:
+                    saved = (list(self.pc), list(self.events), list(self.unmodelled))
+                    self._dyn_target = (c, self._glob_cache[k])
+                    try:
+                        for d in reversed(decs):
+                            f = self.eval(d, Frame(c.module))
+                            self.call(f, [ClassV(c)], {}, d)
+                    except Exception:  # noqa: BLE001  (decorator outside the model: the attributes stay unknown)
+                        pass
+                    finally:
+                        self._dyn_target = None
+                        self.pc[:], self.events[:], self.unmodelled[:] = saved
+            for n, v in self._glob_cache[k].items():
+                out.setdefault(n, v)
+        return out
 
     def method_value(self, m):
         k = ("method", m.qualname)
@@ -669,6 +714,9 @@ class Evaluator:
         return self._glob_cache[k]
 
     def setattr(self, target, name, value, node=None):
+        if isinstance(target, ClassV) and getattr(self, "_dyn_target", None) is not None and self._dyn_target[0] is target.ci:
+            self._dyn_target[1][name] = value
+            return
         if isinstance(target, Obj):
             st = target.cls.find_setter(name)
             if st is not None:
@@ -893,8 +941,9 @@ class Evaluator:
                 src = ast.unparse(f)
                 if src.split(".")[0] in ("np", "numpy", "math", "scipy") or src in ("len", "int", "float", "min", "max", "abs", "bool", "str", "isinstance", "callable"):
                     continue
-                if isinstance(f, ast.Attribute) and f.attr in ("item", "astype", "copy", "get"):
-                    continue
+                if isinstance(f, ast.Attribute) and f.attr in ("item", "astype", "copy", "get", "sum", "mean", "min", "max", "any", "all", "prod", "argmin", "argmax",
+                                                               "reshape", "ravel", "flatten", "squeeze", "searchsorted", "nonzero", "cumsum", "repeat", "take", "clip", "round"):
+                    continue  # value-only ndarray methods
                 return False
         return True
 
@@ -1085,6 +1134,8 @@ class Evaluator:
         return mk_app("elem", [Sym(key_of(seq)), j])
 
     def concrete_items(self, it):
+        if isinstance(it, ClassV) and it.ci.is_enum:
+            return list(self.enum_members(it.ci))
         if isinstance(it, Tup) and not any(isinstance(i, Star) for i in it.items):
             return list(it.items)
         if isinstance(it, Lst) and not it.pappends and not it.unknown:
@@ -1308,7 +1359,23 @@ class Evaluator:
         return d
 
     def ex_JoinedStr(self, e, fr):
-        return Top("f-string")
+        # f-strings fold when every part is a constant (plain conversion, no format spec); otherwise the text is opaque
+        parts = []
+        for v in e.values:
+            if isinstance(v, ast.Constant) and isinstance(v.value, str):
+                parts.append(v.value)
+            elif isinstance(v, ast.FormattedValue) and v.format_spec is None and v.conversion in (-1, 115):
+                try:
+                    x = self.eval(v.value, fr)
+                except (AnalysisError, RaiseSignal):
+                    return Top("f-string")
+                if isinstance(x, Const) and isinstance(x.value, (str, int)) and not isinstance(x.value, bool):
+                    parts.append(str(x.value))
+                else:
+                    return Top("f-string")
+            else:
+                return Top("f-string")
+        return Const("".join(parts))
 
     def ex_Lambda(self, e, fr):
         return LambdaV(e, fr, fr.module)
